@@ -276,6 +276,7 @@ pub fn stat_fd<D: AsRawFd>(dir: &D, path: Option<&CStr>) -> (r: io::Result<stat6
     ensures path is None ==> r == res_fstat(dir.sfd()),
             r is Ok && path is None ==> r->Ok_0.st_size == host_size(dir.sfd()) && r->Ok_0.st_size >= 0
 { unimplemented!() }
+pub uninterp spec fn hd_rec_ok(inode: Inode, flags: u32) -> bool;
 // ---- HandleData: an open descriptor and the flags word last applied to it (the append-mode bookkeeping of C18 lives in unit ptsize)
 #[verifier::external_body] pub struct HandleData { _p: u8 }
 impl HandleData {
@@ -283,7 +284,9 @@ impl HandleData {
     #[verifier::external_body] pub fn borrow_fd(&self) -> (r: BorrowedFd<'_>) ensures r.sfd() == self.hfd() { unimplemented!() }
     #[verifier::external_body] pub fn get_flags(&self) -> (r: u32) { unimplemented!() }
     #[verifier::external_body] pub fn set_flags(&self, flags: u32) { unimplemented!() }
-    #[verifier::external_body] pub fn new(inode: Inode, file: File, flags: u32) -> (r: HandleData) ensures r.hfd() == file.sfd() { unimplemented!() }
+    pub uninterp spec fn rec_inode(&self) -> Inode;
+    pub uninterp spec fn rec_flags(&self) -> u32;
+    #[verifier::external_body] pub fn new(inode: Inode, file: File, flags: u32) -> (r: HandleData) ensures r.hfd() == file.sfd(), r.rec_inode() == inode, r.rec_flags() == flags { unimplemented!() }
     #[verifier::external_body] pub fn get_file_mut(&self) -> (r: (MutexGuard<()>, &File)) ensures r.1.sfd() == self.hfd() { unimplemented!() }
 }
 // ---- the data streams: write_from() preads from the file into the reply, read_to() pwrites the request payload to the file
@@ -334,7 +337,12 @@ impl InodeMap {
 #[verifier::external_body] pub struct HandleMap { _p: u8 }
 impl HandleMap {
     #[verifier::external_body] pub fn get(&self, handle: Handle, inode: Inode) -> (r: io::Result<Arc<HandleData>>) ensures r is Ok ==> r->Ok_0.hfd() == hd_fd(handle, inode) { unimplemented!() }
-    #[verifier::external_body] pub fn insert(&self, handle: Handle, data: HandleData) { unimplemented!() }
+    // what an open handle REMEMBERS: the inode and the flag word the CLIENT opened it with (check_fd_flags compares later requests' flags with it and
+    // switches the descriptor's mode on a difference: a record of other flags makes e.g. the first WRITE of an O_APPEND handle under writeback put
+    // the descriptor into append mode - seed C05-f).  Capability: a record may be entered only for the (inode, flags) granted to the caller.
+    #[verifier::external_body] pub fn insert(&self, handle: Handle, data: HandleData)
+        requires hd_rec_ok(data.rec_inode(), data.rec_flags()), // [C05.handle.record]
+    { unimplemented!() }
 }
 #[verifier::external_body] pub struct AtomicU64 { _p: u8 }
 impl AtomicU64 { #[verifier::external_body] pub fn fetch_add(&self, n: u64, o: Ordering) -> (r: u64) { unimplemented!() } }
@@ -554,7 +562,7 @@ def unit(root='/repo'):
           requires=[ROOT, 'self.no_opendir.cur() ==> forall|m: u32| safe_mode(m) ==> #[trigger] reopen_ok(inode, m, self.io_flags(flags | 0o200000i32) | 0o2000000i32) // [C05.get_dirdata.reopen]'],
           ensures=['res is Ok ==> res->Ok_0.hfd() == self.dir_fd(handle, inode, flags) // [C05.get_dirdata.fd]', 'quiet(*old(hs), *final(hs), res is Ok)']),
         F(PTS, IMPL, 'do_open', canary=True,
-          requires=[ROOT, '(self.killpriv_v2.cur() && fuse_flags & FOPEN_IN_KILL_SUIDGID != 0) ==> caps::caps_ok(true)', 'forall|m: u32| safe_mode(m) ==> #[trigger] reopen_ok(inode, m, self.io_flags(flags as i32) | 0o2000000i32) // [C05.do_open.call] re-open of the inode with the writeback-adjusted flags | O_CLOEXEC; regular files and directories only'],
+          requires=[ROOT, '(self.killpriv_v2.cur() && fuse_flags & FOPEN_IN_KILL_SUIDGID != 0) ==> caps::caps_ok(true)', 'forall|m: u32| safe_mode(m) ==> #[trigger] reopen_ok(inode, m, self.io_flags(flags as i32) | 0o2000000i32) // [C05.do_open.call] re-open of the inode with the writeback-adjusted flags | O_CLOEXEC; regular files and directories only', 'hd_rec_ok(inode, flags) // [C05.do_open.record] the handle remembers the flags as given'],
           ensures=['final(hs).rets == old(hs).rets', '%s // [C05.do_open.creds_kept] CAP_FSETID dropped for FOPEN_IN_KILL_SUIDGID is raised again on every path' % CREDS_KEPT]),
     ])
     SYNC_REQ = lambda fd: ['datasync ==> fdatasync_ok(%s) // [C05.fsync.call_data] fdatasync iff datasync' % fd,
@@ -647,11 +655,11 @@ def unit(root='/repo'):
                    '%s // [C05.write.creds_kept] CAP_FSETID dropped for WRITE_KILL_PRIV is raised again' % CREDS_KEPT]),
         F(PTS, FSIMPL, 'open', canary=True,
           requires=[ROOT, 'forall|m: u32| safe_mode(m) ==> #[trigger] reopen_ok(inode, m, self.io_flags(flags as i32) | 0o2000000i32) // [C05.open.call] re-open of the inode with the (writeback-adjusted) flags; special files never',
-                    '(self.killpriv_v2.cur() && fuse_flags & FOPEN_IN_KILL_SUIDGID != 0) ==> caps::caps_ok(true) // [C05.open.killpriv] CAP_FSETID is dropped for the open iff the client asked for it'],
+                    '(self.killpriv_v2.cur() && fuse_flags & FOPEN_IN_KILL_SUIDGID != 0) ==> caps::caps_ok(true) // [C05.open.killpriv] CAP_FSETID is dropped for the open iff the client asked for it', 'hd_rec_ok(inode, flags) // [C05.open.record] the handle remembers the CLIENT\'s flags (not the writeback-adjusted ones)'],
           ensures=['self.no_open.cur() ==> is_enosys(res) // [C05.open.no_open]', '%s // [C05.open.creds_kept]' % CREDS_KEPT]),
         F(PTS, FSIMPL, 'opendir', canary=True,
           requires=[ROOT, 'forall|m: u32| safe_mode(m) ==> #[trigger] reopen_ok(inode, m, self.io_flags((flags | 0o200000u32) as i32) | 0o2000000i32) // [C05.opendir.call] re-open with O_DIRECTORY added',
-                    ],
+                    'hd_rec_ok(inode, flags | 0o200000u32) // [C05.opendir.record]'],
           ensures=['self.no_opendir.cur() ==> is_enosys(res) // [C05.opendir.no_opendir]', '%s // [C05.opendir.creds_kept]' % CREDS_KEPT],
           splices=[('^', 'after', 'proof { assert(forall|a: u32| #![auto] 0u32 & a == 0) by (bit_vector); }')]),
     ]
@@ -759,6 +767,7 @@ def unit(root='/repo'):
                requires=[S, ROOT, 'self.do_lookup_ok(parent, name@)'] + SETRES('ctx.uid', 'ctx.gid', 'create') + [
                    'openat_ok(ino_fd(parent), name@, self.wb_flags(args.flags as i32) | 0o100i32 | 0o200i32 | 0o400000i32, args.mode & !(args.umask & 0o777), ctx.uid, ctx.gid) // [C05.create.call] openat(parent fd, name, writeback-adjusted flags | O_CREAT | O_EXCL, mode & !umask) under the caller\'s ids',
                    '(self.killpriv_v2.cur() && args.fuse_flags & FOPEN_IN_KILL_SUIDGID != 0) ==> caps::caps_ok(true) // [C05.create.killpriv]',
+                   'self.res_do_lookup(parent, name@) is Ok ==> hd_rec_ok(self.res_do_lookup(parent, name@)->Ok_0.inode, args.flags) // [C05.create.record] the handle remembers the CLIENT\'s flags for the inode the lookup gave',
                    'self.res_do_lookup(parent, name@) is Ok ==> forall|m: u32| safe_mode(m) ==> #[trigger] reopen_ok(self.res_do_lookup(parent, name@)->Ok_0.inode, m, self.io_flags(args.flags as i32) | 0o2000000i32) // [C05.create.reopen] an existing file is re-opened with the client\'s flags; special files never'],
                ensures=['%s <= 1 && (%s == 1 ==> %s.nr == 26) // [C05.create.once]' % (N, N, R0), '%s == 0 ==> res is Err // [C05.create.performed]' % N,
                         '%s == 1 && %s.ret < 0 && !(%s.errno == 17 && self.wb_flags(args.flags as i32) & 0o200i32 == 0) ==> failed_with(res, %s) // [C05.create.errno] a failing creating open is answered with its errno (EEXIST without O_EXCL falls back to opening the existing file)' % (N, R0, R0, R0),
